@@ -476,7 +476,7 @@ class Crate:
         return [b for d, b in sorted(self.bodies.items()) if r.search(d)]
 
     def closures_of(self, def_path):
-        return [b for d, b in sorted(self.bodies.items()) if b.root == def_path and d != def_path]
+        return [b for d, b in sorted(self.bodies.items()) if b.root == def_path and d != def_path and b.kind != "Promoted"]
 
     def impls_of_trait(self, trait_suffix):
         """impls whose trait def-path ends with the given suffix (e.g. '::Merge')"""
